@@ -2,6 +2,8 @@
 package rules
 
 import (
+	"strings"
+
 	"golang.org/x/tools/go/ssa"
 
 	"xvc/q"
@@ -25,3 +27,5 @@ func isDefer(ci interface{}) bool {
 	_, ok := ci.(*ssa.Defer)
 	return ok
 }
+
+func has(s, sub string) bool { return strings.Contains(s, sub) }
